@@ -66,6 +66,10 @@ CycOffsets(u, v) == IF Len(u) # Len(v) THEN {} ELSE IF Len(u) = 0 THEN {0}
 \* q occurs at cyclic position p of w.
 AtCirc(w, p, q) == LET n == Len(w) IN \A j \in 1..Len(q) : w[((p + j - 1) % n) + 1] = q[j]
 AtLin(w, p, q)  == p + Len(q) <= Len(w) /\ \A j \in 1..Len(q) : w[p + j] = q[j]
+\* the same for a recognition SITE, whose letters may be ambiguity codes (LpnPI CCDG, SgrTI CCDS): a site letter stands for
+\* its IUPAC set of nucleotides; for a site spelled with nucleotides only this is AtCirc / AtLin (on nucleotide data)
+SiteAtCirc(w, p, q) == LET n == Len(w) IN \A j \in 1..Len(q) : w[((p + j - 1) % n) + 1] \in IUPAC(q[j])
+SiteAtLin(w, p, q)  == p + Len(q) <= Len(w) /\ \A j \in 1..Len(q) : w[p + j] \in IUPAC(q[j])
 \* Circular membership: q is no longer than w and is a factor of some rotation of w.
 OccursCirc(q, w) == /\ Len(q) <= Len(w)
                     /\ (Len(q) = 0 \/ \E p \in 0..(Len(w) - 1) : AtCirc(w, p, q))
